@@ -677,7 +677,9 @@ def to_matched_score(
         sn_off = sn_on + sn["duration_beat"].item()
         sn_dur = sn_off - sn_on
         # hack for notes with negative durations
-        n_dur = max(n["duration_sec"].item(), 60 / 200 * 0.25)
+        n_dur = n["duration_sec"].item()
+        if n_dur <= 0:
+            n_dur = 60 / 200 * 0.25
         pair_info = (
             sn_on,
             sn_dur,
